@@ -571,10 +571,29 @@ func (rw *rewriter) rewriteRange(rs *ast.RangeStmt) {
 }
 
 // rewriteExprs handles time.Now, runtime.NumCPU and the knobs.
+// realClockFuncs keep the real clock: they run in goroutines the controller
+// does not schedule (PCAP-over-IP endpoint reader), where a simulated
+// time.Now would tick the simulated clock at unrepeatable moments.
+var realClockFuncs = map[string]bool{"newPcapOverIPEndpoint": true}
+
 func (rw *rewriter) rewriteExprs() {
+	skip := map[ast.Node]bool{}
+	for _, d := range rw.file.Decls {
+		if fd, ok := d.(*ast.FuncDecl); ok && realClockFuncs[fd.Name.Name] && fd.Body != nil {
+			ast.Inspect(fd.Body, func(n ast.Node) bool {
+				if c, ok := n.(*ast.CallExpr); ok {
+					skip[c] = true
+				}
+				return true
+			})
+		}
+	}
 	ast.Inspect(rw.file, func(n ast.Node) bool {
 		switch x := n.(type) {
 		case *ast.CallExpr:
+			if skip[x] {
+				return true
+			}
 			if p, nm := rw.pkgFunc(x); p == "time" && nm == "Now" {
 				x.Fun = &ast.SelectorExpr{X: ast.NewIdent("simrt"), Sel: ast.NewIdent("Now")}
 				rw.usedRT = true
